@@ -192,6 +192,14 @@ class Report:
 
     def _handle_cex(self, group, case, cx, replay):
         rp = None
+        # replay budget: once an unlisted violation of this obligation has been reproduced the verdict is fixed (exit 1); after 6 replays of the same obligation
+        # that did not reproduce, further ones are recorded as inconclusive without running the real code again
+        book = self.__dict__.setdefault("_replay_book", {})
+        b = book.setdefault((group, cx["obligation"]), dict(hit=0, miss=0))
+        if b["hit"] or b["miss"] >= 6:
+            if not b["hit"]:
+                self.inconclusive.append("%s case %s obligation %s: counterexample not replayed (6 earlier ones of this obligation did not reproduce)" % (group, case, cx["obligation"]))
+            return
         if replay is not None:
             try:
                 rp = replay(case, cx)
@@ -201,10 +209,14 @@ class Report:
             self.inconclusive.append("%s case %s obligation %s: counterexample without replay: %s" % (group, case, cx["obligation"], json.dumps(cx["model"])[:400]))
             return
         if not rp.get("reproduced"):
+            b["miss"] += 1
             self.inconclusive.append("%s case %s obligation %s: solver counterexample did NOT reproduce on the real code (%s); model=%s" %
                                      (group, case, cx["obligation"], rp.get("what"), json.dumps(cx["model"])[:600]))
             return
+        nv = len(self.violations)
         self.found(group, case, cx["obligation"], rp, cx.get("model"))
+        if len(self.violations) > nv:
+            b["hit"] += 1
 
     def found(self, group, case, obligation, rp, model=None):
         """a violation reproduced on the real code: known finding or VIOLATION."""
